@@ -22,6 +22,12 @@ for p in props:
         })
     else:
         na.append({"property_id": pid, "reason": src["not_claimed"].get(pid, "not yet claimed: model, theorems and correspondence for this property are still under construction in this session")})
+import subprocess
+try:
+    hooks = subprocess.check_output(["git", "-C", "/repo", "log", "--format=%h %s", "--grep", "^verif-hooks"], text=True).strip().splitlines()
+except Exception:
+    hooks = []
+src["hooks"]["source_commits"] = [h.split(" ")[0] for h in hooks]
 m = {
     "version": 1,
     "setup_cmd": "./setup.sh",
